@@ -17,6 +17,7 @@ import (
 	"sort"
 	"strconv"
 	"strings"
+	"sync"
 	"time"
 )
 
@@ -295,7 +296,28 @@ type TLCOpts struct {
 	DFS        bool // StateDeque queue
 	ExtraArgs  []string
 	AllowError bool // do not abort when TLC reports an error (caller inspects Result)
+	// PartialOnTimeout: when the time limit is reached after TLC has already reported a violated invariant, return the
+	// output so far (TLC reconstructs a trace per violation under -continue, which takes minutes when thousands of states
+	// violate); a timeout without any reported violation stays a machinery failure
+	PartialOnTimeout bool
 	Coverage   bool
+}
+
+// lockedBuffer: a bytes.Buffer that may be read while the command writes to it
+type lockedBuffer struct {
+	mu sync.Mutex
+	b  bytes.Buffer
+}
+
+func (l *lockedBuffer) Write(p []byte) (int, error) {
+	l.mu.Lock()
+	defer l.mu.Unlock()
+	return l.b.Write(p)
+}
+func (l *lockedBuffer) String() string {
+	l.mu.Lock()
+	defer l.mu.Unlock()
+	return l.b.String()
 }
 
 type TLCResult struct {
@@ -366,10 +388,23 @@ func (c *Ctx) runTLC(dir string, o TLCOpts) *TLCResult {
 	defer cancel()
 	cmd := exec.CommandContext(ctx, "java", args...)
 	cmd.Dir = dir
-	var buf bytes.Buffer
+	var buf lockedBuffer
 	cmd.Stdout = &buf
 	cmd.Stderr = &buf
 	t0 := time.Now()
+	if o.PartialOnTimeout {
+		// once a violation has been reported, give TLC a short while to report more, then stop it
+		go func() {
+			for ctx.Err() == nil {
+				time.Sleep(time.Second)
+				if strings.Contains(buf.String(), "is violated") {
+					time.Sleep(15 * time.Second)
+					cancel()
+					return
+				}
+			}
+		}()
+	}
 	err := cmd.Run()
 	if os.Getenv("VERIF_DEBUG") != "" {
 		fmt.Printf("DEBUG tlc %s/%s in %s: %.1fs\n", o.Module, o.Cfg, filepath.Base(filepath.Dir(dir)), time.Since(t0).Seconds())
@@ -377,7 +412,11 @@ func (c *Ctx) runTLC(dir string, o TLCOpts) *TLCResult {
 	res := &TLCResult{Output: buf.String(), Records: map[string][]string{}}
 	os.RemoveAll(meta)
 	if ctx.Err() != nil {
-		fatalf("TLC timeout after %v on %s/%s", o.Timeout, o.Module, o.Cfg)
+		if !(o.PartialOnTimeout && strings.Contains(buf.String(), "is violated")) {
+			fatalf("TLC timeout after %v on %s/%s", o.Timeout, o.Module, o.Cfg)
+		}
+		res.ExitCode = 12
+		err = nil
 	}
 	if err != nil {
 		if ee, ok := err.(*exec.ExitError); ok {
